@@ -368,9 +368,79 @@ var companyBattery = []companyItem{
 			return ""
 		}
 	}},
+	{"string-truth", []string{"C07", "C08", "C14"}, func(n int64, tr *companyTrace) (string, map[string]interface{}, func(interface{}, error) string) {
+		// which strings count as true is taken from the tree under test itself (companyCalibrate, before the
+		// company starts): what is judged is that a deciding operand decides for ITS evaluation
+		k := len(companyTruthStrings)
+		i, j := int(n%int64(k)), int((n/7)%int64(k))
+		a, b := companyTruthStrings[i], companyTruthStrings[j]
+		src := fmt.Sprintf("a = %q; b = %q; r = []; for q = 0; q < 6; q++ { x = a && p(\"ar\"); y = b || p(\"br\"); z = a ? p(\"at\") : p(\"ae\"); if b { r += 1 } else { r += 0 }; c = 0; for a { c++; break }; r += c }; r", a, b)
+		ta, tb := companyTruth[i], companyTruth[j]
+		return src, map[string]interface{}{"p": tr.p}, func(v interface{}, err error) string {
+			var want []interface{}
+			var wtr []string
+			for q := 0; q < 6; q++ {
+				if ta {
+					wtr = append(wtr, "ar")
+				}
+				if !tb {
+					wtr = append(wtr, "br")
+				}
+				if ta {
+					wtr = append(wtr, "at")
+				} else {
+					wtr = append(wtr, "ae")
+				}
+				bi, ai := int64(0), int64(0)
+				if tb {
+					bi = 1
+				}
+				if ta {
+					ai = 1
+				}
+				want = append(want, bi, ai)
+			}
+			if m := wantVal(want)(v, err); m != "" {
+				return m
+			}
+			if !reflect.DeepEqual(tr.ev, wtr) {
+				return fmt.Sprintf("operands evaluated %q, expected %q (a counts as %v, b as %v when tested alone)", tr.ev, wtr, ta, tb)
+			}
+			return ""
+		}
+	}},
+	{"typed-slices", []string{"C10", "C19", "C14"}, func(n int64, _ *companyTrace) (string, map[string]interface{}, func(interface{}, error) string) {
+		a := n%100003 + 5
+		k := n%40 + 3
+		src := fmt.Sprintf("a = make([]int64); l = []; for i = 0; i < %d; i++ { l += %d + i }; a += l; a += [1, 2]; b = make([]string); b += [\"x%d\", \"y\"]; c = make([]float64); c += [1.5, %d]; d = toIntSlice([%d, %d.0]); f = toFloatSlice(l); s = toStringSlice([\"p%d\", \"q\"]); [len(a), a[0], a[%d], a[len(a)-1], typeOf(a), b, c[1], typeOf(c), d, f[%d], len(f), s]", k, a, a, a, a, a+1, a, k-1, k-1)
+		return src, nil, wantList(k+2, a, a+k-1, int64(2), "[]int64", []string{"x" + strconv.FormatInt(a, 10), "y"}, float64(a), "[]float64", []int64{a, a + 1}, float64(a+k-1), k, []string{"p" + strconv.FormatInt(a, 10), "q"})
+	}},
+	{"call-kinds", []string{"C11", "C04", "C14"}, func(n int64, _ *companyTrace) (string, map[string]interface{}, func(interface{}, error) string) {
+		a := n%50021 + 2
+		src := fmt.Sprintf("f1 = func(x) { return x + 1 }; f4 = func(p, q, r, s) { return p * 1000 + q * 100 + r * 10 + s }; f6 = func(p, q, r, s, t, u) { return [p, u] }; fv = func(h, rest...) { return h + len(rest) }; r = []; for i = 0; i < 5; i++ { r += f1(%d + i); r += f4(1, 2, 3, i); r += f6(i, 0, 0, 0, 0, \"u\")[1]; r += fv(i, 1, 2, 3); r += apply(f1, i); r += join(\"-\", \"a\", \"b\" + i); r += apply(func(x) { return x * %d }, i) }; r", a, a)
+		var want []interface{}
+		for i := int64(0); i < 5; i++ {
+			want = append(want, a+i+1, 1230+i, "u", i+3, i+1, "a-b"+strconv.FormatInt(i, 10), i*a)
+		}
+		return src, map[string]interface{}{"apply": companyApply, "join": companyJoin}, wantVal(want)
+	}},
+}
+
+// companyTruthStrings are tested alone, before the company starts, for what they count as in a
+// condition (the statements leave numeral- and boolean-like strings open): companyTruth.
+var companyTruthStrings = []string{"", "a", "abc", "0", "0.0", "1", "true", "false", "1.5", "x y", "00", "nil", "T", "F", "-0", "1e3"}
+var companyTruth []bool
+
+func companyCalibrate() {
+	companyTruth = make([]bool, len(companyTruthStrings))
+	for i, s := range companyTruthStrings {
+		v, _ := vm.Execute(env.NewEnv(), nil, fmt.Sprintf("%q ? 1 : 0", s))
+		companyTruth[i] = v == int64(1)
+	}
 }
 
 func companyStart(k int, seed int64, prop string) func() wk.CompanyReport {
+	companyCalibrate()
 	var stop int32
 	var wg sync.WaitGroup
 	var mu sync.Mutex
@@ -449,6 +519,7 @@ func companyRunItem(it *companyItem, n int64) (msg, src string) {
 func init() {
 	// `vworker -child company-selftest [rounds]`: every item alone, one after another (what the battery gives without company)
 	wk.RegisterChild("company-selftest", func(args []string) {
+		companyCalibrate()
 		rounds := 300
 		if len(args) > 0 {
 			rounds, _ = strconv.Atoi(args[0])
